@@ -50,6 +50,7 @@ type Phase struct {
 	OnViolation string            `json:"on_violation"` // tlc: broken (default) | emit
 	Needs       string            `json:"needs"`        // skip phase unless this file exists in work dir
 	Coverage    bool              `json:"coverage"`
+	SkipIfViol  bool              `json:"skip_if_violations"` // skip once an earlier phase reported a violation
 	DFS         bool              `json:"dfs"`
 }
 
@@ -287,6 +288,9 @@ func run(prop, tier string) int {
 			if _, err := os.Stat(filepath.Join(work, ph.Needs)); err != nil {
 				continue
 			}
+		}
+		if ph.SkipIfViol && len(violations) > 0 {
+			continue
 		}
 		pstart := time.Now()
 		info := map[string]any{"kind": ph.Kind, "name": ph.Name}
@@ -772,6 +776,12 @@ func runGo(work, prop, tier string, idx int, ph Phase) (HResult, string, error) 
 	err := cmd.Wait()
 	if !timer.Stop() {
 		return res, buf.String(), fmt.Errorf("harness timed out")
+	}
+	if out := buf.String(); strings.Contains(out, "fatal error: concurrent map") || strings.Contains(out, "WARNING: DATA RACE") {
+		// the Go runtime / race detector caught the real code racing: that is behaviour of the code, not of the harness
+		rp := saveReplay(prop, "runtime-race-"+ph.Test, map[string]any{"prop": prop, "kind": "runtime-detected-race", "test": ph.Test, "output": tail(out, 120)})
+		res.Violations = append(res.Violations, Finding{Key: prop + ":runtime-detected-race:" + ph.Test, Clause: "the Go runtime or race detector reported a data race while " + ph.Test + " was running", Replay: rp})
+		return res, out, nil
 	}
 	b, rerr := os.ReadFile(resPath)
 	if rerr != nil {
